@@ -123,8 +123,9 @@ impl PnpmWorkspaceParser {
         let trimmed = raw_text.trim();
 
         // Detect and remove quotes
-        let (version, has_quotes) = if (trimmed.starts_with('\'') && trimmed.ends_with('\''))
-            || (trimmed.starts_with('"') && trimmed.ends_with('"'))
+        let (version, has_quotes) = if trimmed.len() >= 2
+            && ((trimmed.starts_with('\'') && trimmed.ends_with('\''))
+                || (trimmed.starts_with('"') && trimmed.ends_with('"')))
         {
             (&trimmed[1..trimmed.len() - 1], true)
         } else {
